@@ -38,14 +38,23 @@ def main():
         m = re.search(r"(%s/(?!out/)[A-Za-z0-9_./-]+\.go)" % re.escape(seedroot), run)
         if len(sys.argv) > 3 and sys.argv[3].startswith("dest="):
             destfile = sys.argv.pop(3)[5:]
+        elif re.search(r"\bcp\s+\S+\s+(\S+\.go)", run):
+            destfile = re.search(r"\bcp\s+\S+\s+(\S+\.go)", run).group(1)
+            if destfile.startswith(seedroot):
+                destfile = destfile[len(seedroot) + 1:]
         elif m:
             destfile = m.group(1)[len(seedroot) + 1:]
         else:
             m2 = re.search(r"((?:[A-Za-z0-9_.-]+/)+[A-Za-z0-9_.-]+\.go)", run.replace("out/", "OUT/"))
             destfile = m2.group(1) if m2 else "seed_demo_test.go"
         dests = []
+        cps = {os.path.basename(a): b for a, b in re.findall(r"\bcp\s+(\S+\.go)\s+(\S+\.go)", run)}
         for f in gofiles:
-            dd = os.path.join(wt, destfile) if len(gofiles) == 1 else os.path.join(wt, os.path.dirname(destfile), f)
+            if f in cps:
+                dfile = cps[f][len(seedroot) + 1:] if cps[f].startswith(seedroot) else cps[f]
+                dd = os.path.join(wt, dfile)
+            else:
+                dd = os.path.join(wt, destfile) if len(gofiles) == 1 else os.path.join(wt, os.path.dirname(destfile), f)
             os.makedirs(os.path.dirname(dd), exist_ok=True)
             shutil.copy(os.path.join(d, f), dd)
             dests.append(os.path.relpath(dd, wt))
